@@ -60,8 +60,10 @@ WXe == /\ Is("xe") /\ Step
        /\ IF Ev.out = "eager"
           THEN /\ (Has("dispo") => nact[Ev.i] = 1)       \* the actor did answer the broker, once
                /\ ph' = [ph EXCEPT ![Ev.i] = "done"]
-          ELSE IF Ev.out = "killed"
-          THEN ph' = [ph EXCEPT ![Ev.i] = "killed"]
+          ELSE IF Ev.out \in {"killed", "crash"}
+          THEN /\ ph' = [ph EXCEPT ![Ev.i] = "killed"]
+               \* C02: an exception that escapes actor_run leaves the delivery without a disposition
+               /\ (Ev.out = "crash" => ~Has("dispo"))
           ELSE ph' = [ph EXCEPT ![Ev.i] = "ended"]
        /\ rs' = [rs EXCEPT ![Ev.i].owed = (dv[Ev.i].res /\ Ev.out \in {"ok", "fail"}) \/ (Ev.out = "eager" /\ @)]
        /\ ex' = [ex EXCEPT ![Ev.i].okc = IF Ev.out = "ok" /\ ~dv[Ev.i].rec THEN @ + 1 ELSE @]
